@@ -26,7 +26,13 @@ Domain : v1 configuration with 0-2 input rails, 0-2 output rails (all of the blo
          with these options (an earlier call may pass the very options of the judged call; if they take a supplied bot
          message, that earlier call may have been made WITHOUT one - the caller had no candidate answer yet.  What such a
          call does is not specified and not judged; the judged call must still run the categories selected in the options
-         the caller passed).
+         the caller passed);  (4) WHAT THE PREDEFINED BOT MESSAGES LOOK LIKE - fixed texts, or TEMPLATES that mention a context variable
+         (`"Sorry $vf_who, ..."`, `{{ vf_who }}`, `{{ vf_who | upper }}`: the refusal of every rail and, when the caller plants the variable,
+         the dialog rails' predefined messages), the variable planted by the caller with a message of role `context` in front of every call or
+         set by the rail flow right before it utters its refusal.  A rendered refusal / predefined message is still a predefined message: the
+         reply is its rendered text, output rails do not run on it, the log lists the rails that ran with `stop` on the blocking one;
+         (5) A SPARE BOT MESSAGE - a selection with NEITHER dialog NOR output (none, input, retrieval, input+retrieval) whose caller still
+         appends the bot message it holds (last message, role assistant): the selected categories run on the user message as always.
 Oracle : reference table written from docs/user_guides/advanced/generation-options.md and the statement:
            * no rail action of an unselected category is ever invoked; selected input rails run in order on the text
              left by their predecessors until the first reject;
@@ -75,20 +81,31 @@ RULE = (
     "GenerationOptions object kept by the caller / a new GenerationOptions object per call / ONE dict kept by the caller (2 : 1 : 1), awaited by "
     "generate / in one task / run_until_complete per call (crossed); if the selection takes a supplied bot message (output without dialog), "
     "5 of 7 such rows make the first of these calls WITHOUT one (last message = the user's; that call is unspecified and not judged) = 532 rows. "
+    "(e) family TPL_SHAPES on the 2+2+1 configuration = predefined bot messages that are templates over a context variable: ($var, planted by a "
+    "context message) / ({{ var }}, set by the rail flow before its refusal) / ({{ var | upper }}, context message) / ($var, flow), each x 16 subsets x "
+    "every effective verdict vector with a reject in a selected category (the refusal is rendered; with output selected too) + for the context-message "
+    "shapes every dialog-selected row without a reject on a route that utters a predefined dialog message (predef / pl / next_predef) = 1133 rows with variants. "
+    "(f) SPARE BOT MESSAGE: every 2nd row of (a)-(e) whose selection has neither dialog nor output is also run with a bot message appended by the caller "
+    "(last message, role assistant; every 4th after a warm-up call) = 141 rows. "
     "Sampled part: the same row space with Hypothesis-drawn rail "
     "counts (0-2, 0-2, 0-1), per-slot flow sharing, hostile user texts, bot texts, routes, partial-dict spelling, "
     "enable_rails_exceptions, result variable (shared 2/3, own 1/3), value returned by a rejecting rail action (False 1/3, None 1/3, "
     "0 and '' 1/6 each), 0-2 earlier calls (selection: any subset 1/2, the judged call's own = equal options 1/3, none 1/6; a call whose "
     "selection takes a bot message leaves it out 1/2) (+ the optional all-rails warm-up call), the way the calls are "
     "awaited (generate / run_until_complete(generate_async) per call / all in one task, 1/4 : 1/4 : 1/2) and the way the options are handed "
-    "over (new dict per call 1/3, dict kept by the caller 1/6, new GenerationOptions object per call 1/6, one object kept by the caller 1/3). "
+    "over (new dict per call 1/3, dict kept by the caller 1/6, new GenerationOptions object per call 1/6, one object kept by the caller 1/3), "
+    "predefined messages (fixed 1/2, templates 1/2 with style $var / {{ var }} / {{ var | upper }} and variable from a context message / set by the rail flow drawn), "
+    "spare bot message for selections without dialog and output (1/2). "
     "Non-trivial = subset != all four and (a reject or rewrite among the verdicts of a selected "
     "category, or a selected input/output category without any rail, or one flow that ran in two places); distinct by the whole case."
 )
 ASSUMPTIONS = [
     "the supplied bot message is passed as a last message with role `assistant` (the code path tests/test_generation_options.py uses; the docs say `bot`)",
     "rails option values are booleans / category names only (per-rail name lists are documented as unsupported)",
-    "a bot message is supplied exactly when dialog is unselected and output is selected - in the judged call always; an EARLIER call of that "
+    "a bot message is supplied (a) whenever dialog is unselected and output is selected and (b) as a SPARE one in part of the judged calls whose selection has "
+    "neither dialog nor output (the caller reuses the message list of its input+output check; probed on the unchanged tree: the message is taken off the list, "
+    "the input rails run on the user message, the reply is the user text / rewritten text / refusal exactly as without it - what the statement says for these "
+    "selections); with dialog selected a trailing assistant message is never sent (unspecified). (a) holds in the judged call always; an EARLIER call of that "
     "selection may leave it out (last message = the user's). The statement and the docs say nothing about such a call (probed: its output rails "
     "run on an undefined $bot_message): it is never judged, whatever it returns; a case in which it raised is skipped like any earlier raise",
     "options may be passed as a dict or as a GenerationOptions object (signature of generate/generate_async, docs/user_guides/advanced/"
@@ -106,6 +123,11 @@ ASSUMPTIONS = [
     "`$x = execute a` assigns the action's return value whatever it is (docs/user_guides/colang-language-syntax-guide.md: a context variable is set 'as the return value from an action execution')",
     "several generate_async calls awaited one after the other inside one coroutine are independent calls: reply and log of a call describe "
     "that call only (the statement's 'the rails that actually ran'); only the last call of a case is judged, a case whose earlier call raised is skipped",
+    "predefined bot messages may mention context variables ($name or Jinja {{ name }} / filters: docs/user_guides/colang-language-syntax-guide.md, 'bot messages "
+    "with variables'); the variable is always defined when the message is uttered (planted by a `context` message in front of every call - the documented way to "
+    "pass context - or assigned by the rail flow right before `bot refuse`), so the rendered text is determined; a rendered predefined message is a predefined "
+    "message: 'the refusal' of the statement is its rendered text and output rails do not run on it (generation.py: 'We skip output rails for predefined messages'); "
+    "with enable_rails_exceptions the refusal is an exception event (not templated); predefined DIALOG messages are templated only when the caller plants the variable",
     "a call marked new_conversation sends only its own messages (another conversation served by the same LLMRails instance); the harness "
     "does not clear the instance's events cache between the calls of a case",
 ]
@@ -123,12 +145,16 @@ EXT = "c16-same-flow"  # vf.pipeline extension (registered below): rail slots th
 BLOCK_VALUES = {"false": False, "none": None, "zero": 0, "empty": ""}
 
 
-def _cfg(n_out, exc=False, n_in=2, n_ret=1, flows=None, var=None, block=None):
+def _cfg(n_out, exc=False, n_in=2, n_ret=1, flows=None, var=None, block=None, tpl=None):
     """flows = {"in": [label | None, ...], "out": [...]}: slots with the same label list the SAME rail flow `vf shared <label>`
     (None = the slot's own flow).  The key (and the pipeline extension) is present only if some slot has a label.
     var = "own": every rail flow keeps its action's result in a variable of its own (default: all rails of the configuration
     write the same variable, the library's `$allowed = execute ...` convention).  block = "none" | "zero" | "empty": the value a
-    rejecting rail action returns (default: False).  Both keys are present only when they differ from the default."""
+    rejecting rail action returns (default: False).  Both keys are present only when they differ from the default.
+    tpl = [style, via]: the predefined bot messages of the configuration are TEMPLATES that mention the context variable $vf_who
+    (style "var": `$vf_who`, "jinja": `{{ vf_who }}`, "filter": `{{ vf_who | upper }}`); via "context": the caller plants the
+    variable with a message of role `context` in front of every call (then the refusals of all rails AND the dialog rails' predefined
+    messages are templates), via "flow": the rail flow sets it right before it utters its refusal (refusals only)."""
     cfg = {"v": 1, "in": ["both"] * n_in, "out": ["both"] * n_out, "ret": n_ret, "dialog": True, "exc": exc}
     flows = {cat: (list((flows or {}).get(cat) or []) + [None] * n)[:n] for cat, n in (("in", n_in), ("out", n_out))}
     if any(flows["in"]) or any(flows["out"]):
@@ -140,7 +166,31 @@ def _cfg(n_out, exc=False, n_in=2, n_ret=1, flows=None, var=None, block=None):
     if block in ("none", "zero", "empty"):
         cfg["ext"] = EXT
         cfg["block"] = block
+    if tpl:
+        cfg["ext"] = EXT
+        cfg["tpl"] = list(tpl)
     return cfg
+
+
+TPL_WHO = "Ann"
+TPL_STYLES = {"var": "$vf_who", "jinja": "{{ vf_who }}", "filter": "{{ vf_who | upper }}"}
+TPL_RENDERED = {"var": TPL_WHO, "jinja": TPL_WHO, "filter": TPL_WHO.upper()}
+TPL_SET = '$vf_who = "%s"' % TPL_WHO
+
+
+def _tpl_text(cfg, fixed, rendered=False):
+    """A predefined bot message of the configuration: the fixed text, or (cfg["tpl"]) a template that mentions $vf_who / what it renders to."""
+    if not cfg.get("tpl"):
+        return fixed
+    style = cfg["tpl"][0]
+    return f"Sorry {(TPL_RENDERED if rendered else TPL_STYLES)[style]}, {fixed}"
+
+
+def _tpl_context(cfg):
+    """The `context` message the caller puts in front of every call (tpl via context), or None."""
+    if cfg.get("tpl") and cfg["tpl"][1] == "context":
+        return {"role": "context", "content": {"vf_who": TPL_WHO}}
+    return None
 
 
 def _own_rails(cfg):
@@ -204,6 +254,8 @@ def _shared_branch(cfg, lab, cat):
         f"    bot vf refuse {cat} r{first}",  # defined by the generated configuration for every slot
         "  stop",
     ]
+    if cfg.get("tpl") and cfg["tpl"][1] == "flow":
+        lines.insert(5, "    " + TPL_SET)
     if kind != "check":
         lines.append(f"{var} = {res}")
     return lines
@@ -223,6 +275,23 @@ def _ext_build_config(cfg, colang, yaml_text):
                     raise RuntimeError("vf.props.c16: the generated rail flow is not where the extension expects it")
                 mine = text.replace(call, f"execute {_action_name(cat, i)}(").replace(_result_var({}, kind, None), _result_var(cfg, kind, f"{cat}{i}"))
                 colang = colang.replace(text, mine)
+    if cfg.get("tpl"):
+        # the predefined messages become templates (after the rewriting above: the refusal definitions are still as generated)
+        for cat in ("in", "out"):
+            for i, kind in enumerate(cfg.get(cat, [])):
+                fixed = refusal_text(cat, i, kind)
+                old = f'define bot vf refuse {cat} r{i}\n  "{fixed}"\n'
+                if colang.count(old) != 1:
+                    raise RuntimeError("vf.props.c16: the refusal message is not where the extension expects it")
+                colang = colang.replace(old, f'define bot vf refuse {cat} r{i}\n  "{_tpl_text(cfg, fixed)}"\n')
+                if cfg["tpl"][1] == "flow":
+                    colang = colang.replace(f"      bot vf refuse {cat} r{i}\n", f"      {TPL_SET}\n      bot vf refuse {cat} r{i}\n")
+        if cfg["tpl"][1] == "context":
+            for key in ("greet", "help"):
+                old = f'"{PREDEF[key]}"'
+                if colang.count(old) != 1:
+                    raise RuntimeError("vf.props.c16: the predefined dialog message is not where the extension expects it")
+                colang = colang.replace(old, f'"{_tpl_text(cfg, PREDEF[key])}"')
     co = [colang]
     for lab in _shared_labels(cfg):
         dirs = [cat for cat in ("in", "out") if _places(cfg, lab, cat)]
@@ -336,10 +405,12 @@ BOTS = ["all good", "it's {sunny} $today", "fine: yes", "ok"]
 D_ROUTES = ["llm", "predef", "next_llm", "pl", "act_llm", "next_predef"]
 
 
-def _turn(T, subset, spelling, vin, vout, user_noise, bot_noise, route, empty_bot=False, nobot=False):
+def _turn(T, subset, spelling, vin, vout, user_noise, bot_noise, route, empty_bot=False, nobot=False, spare_bot=False):
     """One call with a `rails` selection (subset None = a call without the option: all rails); T = its index in the case.
     nobot (earlier calls only): a call whose selection takes a supplied bot message (output without dialog) is made WITHOUT one -
-    the last message is the user's, as when the caller has no candidate answer yet.  What such a call does is not specified."""
+    the last message is the user's, as when the caller has no candidate answer yet.  What such a call does is not specified.
+    spare_bot: the selection has NEITHER dialog NOR output, and the caller still appends the bot message it holds (the message list it
+    uses for the input+output check): nothing selected consumes it, the selected categories run on the user message as always."""
     turn = {
         "user": f"{user_noise} {fakes.mk_user(T)}",
         "route": route,
@@ -361,11 +432,14 @@ def _turn(T, subset, spelling, vin, vout, user_noise, bot_noise, route, empty_bo
             turn["bot"] = ""
             turn["out_any_text"] = True  # the fake rails judge this marker-less text too
             turn["out"] = ["accept" if v == "rewrite" else v for v in vout]
+    elif "dialog" not in subset and "output" not in subset and spare_bot:
+        turn["bot"] = f"{fakes.mk_llm(T, SUPPLIED_K)} {bot_noise}"
+        turn["spare_bot"] = True
     return turn
 
 
 def make_case(subset, spelling, n_out, vin, vout, user_noise, bot_noise, route, exc=False, warm=False, empty_bot=False, n_in=2, n_ret=1, flows=None,
-              var=None, block=None, pre=None, new=False, api="sync", options_as="dict"):
+              var=None, block=None, pre=None, new=False, api="sync", options_as="dict", tpl=None, spare_bot=False):
     """pre = calls made on the same LLMRails instance before the judged one: [{"subset": [...] | None (all rails, no option)
     | "same" (selection and spelling of the judged call: the two calls pass EQUAL options), "spelling", "in", "out", "route",
     "user", "bot", "new": bool, "nobot": bool (see _turn)}, ...]; "new" on a call (parameter `new` for the judged one)
@@ -378,7 +452,7 @@ def make_case(subset, spelling, n_out, vin, vout, user_noise, bot_noise, route, 
     subset = [c for c in CATS if c in subset]
     pre = list(pre or [])
     T = len(pre) + (1 if warm else 0)
-    turn = _turn(T, subset, spelling, vin, vout, user_noise, bot_noise, route, empty_bot)
+    turn = _turn(T, subset, spelling, vin, vout, user_noise, bot_noise, route, empty_bot, spare_bot=spare_bot)
     turns = []
     if warm:
         # a first call of the same conversation with ALL rails (no `rails` option): the judged call then resends its messages,
@@ -396,7 +470,7 @@ def make_case(subset, spelling, n_out, vin, vout, user_noise, bot_noise, route, 
     if new and turns:
         turn["new_conversation"] = True
     turns.append(turn)
-    cfg = _cfg(n_out, exc, n_in, n_ret, flows, var, block)
+    cfg = _cfg(n_out, exc, n_in, n_ret, flows, var, block, tpl)
     if turn.get("bot") == "":
         # rails of kind "both" hand back the (possibly rewritten) text and refuse on a falsy result - the harness's own rail flows
         # could not tell an accepted empty message from a rejection; the empty-message cases use plain checking rails
@@ -432,6 +506,10 @@ SHAPES = [
 
 # (var, block): how the rails keep and signal their verdict (see _cfg); (None, None) = shared variable + False is every other table
 RESULT_SHAPES = [(None, "none"), (None, "zero"), (None, "empty"), ("own", None), ("own", "none")]
+
+
+# (style, via): predefined bot messages as templates over the context variable $vf_who (see _cfg)
+TPL_SHAPES = [("var", "context"), ("jinja", "flow"), ("filter", "context"), ("var", "flow")]
 
 
 def _pre_calls(n, n_in, n_out):
@@ -479,14 +557,28 @@ def _same_options_calls(n, n_in, n_out, takes_bot):
     return pre
 
 
-def _rows(subset, spelling, n_in, n_out, n_ret, flows, n, var=None, block=None, only_reject=False):
+PREDEF_ROUTES = ["predef", "pl", "next_predef"]
+
+
+def _rows(subset, spelling, n_in, n_out, n_ret, flows, n, var=None, block=None, only_reject=False, tpl=None):
     """The cases of one table row (n = running row number: picks texts/route and the extra variants)."""
-    kw = dict(n_in=n_in, n_ret=n_ret, flows=flows, var=var, block=block)
+    kw = dict(n_in=n_in, n_ret=n_ret, flows=flows, var=var, block=block, tpl=tpl)
     for vin in _in_vectors("input" in subset, n_in):
         for vout in _out_vectors("output" in subset, n_out):
             n += 1
+            route = D_ROUTES[n % len(D_ROUTES)]
             if only_reject and not (("input" in subset and "reject" in vin) or ("output" in subset and "reject" in vout)):
-                continue  # (the family varies how a rejection is signalled: rows without one are the main table's)
+                # (the family varies how a rejection is signalled / what a predefined message looks like: rows without a rejection
+                # are the main table's - except, in the template family, the rows in which the dialog rails utter a predefined message)
+                if not (tpl and tpl[1] == "context" and "dialog" in subset):
+                    continue
+                route = PREDEF_ROUTES[n % len(PREDEF_ROUTES)]
+            if "dialog" not in subset and "output" not in subset and n % 2 == 0:
+                # neither dialog nor output selected, and the caller still appends the bot message it holds
+                yield make_case(subset, spelling, n_out, vin, vout, USERS[n % len(USERS)], BOTS[n % len(BOTS)], route, spare_bot=True, warm=(n % 4 == 0), **kw)
+            if route != D_ROUTES[n % len(D_ROUTES)]:
+                yield make_case(subset, spelling, n_out, vin, vout, USERS[n % len(USERS)], BOTS[n % len(BOTS)], route, **kw)
+                continue
             yield make_case(subset, spelling, n_out, vin, vout, USERS[n % len(USERS)], BOTS[n % len(BOTS)], D_ROUTES[n % len(D_ROUTES)], **kw)
             if n % 4 == 0:
                 yield make_case(subset, spelling, n_out, vin, vout, USERS[n % len(USERS)], BOTS[n % len(BOTS)], D_ROUTES[n % len(D_ROUTES)], warm=True, **kw)
@@ -526,6 +618,13 @@ def enumerate_cases(tier):
         for r in range(5):
             for subset in itertools.combinations(CATS, r):
                 for case in _rows(subset, ("list", "dict")[(n + s) % 2], 2, 2, 1, None, n, var=var, block=block, only_reject=True):
+                    yield case
+                n += len(_in_vectors("input" in subset, 2)) * len(_out_vectors("output" in subset, 2))
+    # predefined bot messages that are templates over a context variable (refusals of the rails, predefined dialog messages)
+    for s, tpl in enumerate(TPL_SHAPES):
+        for r in range(5):
+            for subset in itertools.combinations(CATS, r):
+                for case in _rows(subset, ("list", "dict")[(n + s) % 2], 2, 2, 1, None, n, tpl=tpl, only_reject=True):
                     yield case
                 n += len(_in_vectors("input" in subset, 2)) * len(_out_vectors("output" in subset, 2))
 
@@ -574,6 +673,11 @@ def _case(draw):
         })
     api = draw(st.sampled_from(["sync", "async", "task", "task"]))
     options_as = draw(st.sampled_from(["dict", "dict", "dict-reused", "object", "object-reused", "object-reused"]))
+    # predefined messages: fixed texts 1/2, templates over a context variable 1/2 (style and origin of the variable drawn);
+    # a selection without dialog and output comes with a spare bot message 1/2
+    if draw(st.booleans()):
+        case_kw["tpl"] = (draw(st.sampled_from(sorted(TPL_STYLES))), draw(st.sampled_from(["context", "flow"])))
+    case_kw["spare_bot"] = draw(st.booleans())
     return make_case(subset, spelling, n_out, vin, vout, draw(noise), draw(bot), draw(st.sampled_from(D_ROUTES)), n_in=n_in, n_ret=n_ret, flows=flows,
                      var=var, block=block, pre=pre, new=draw(st.booleans()), api=api, options_as=options_as, **case_kw)
 
@@ -651,6 +755,12 @@ def _check(case, obs):
     labels.append("reject-returns=" + {"false": "False", "none": "None", "zero": "0", "empty": "empty-string"}[cfg.get("block") or "false"])
     if cfg["exc"]:
         labels.append("rails-exceptions")
+    if cfg.get("tpl"):
+        labels.append(f"predefined-messages=templates:{cfg['tpl'][0]},variable-set-by-{cfg['tpl'][1]}")
+    else:
+        labels.append("predefined-messages=fixed-texts")
+    if spec.get("spare_bot"):
+        labels.append("bot-message-supplied-although-neither-dialog-nor-output-selected")
     text = pipeline.reply_text(o)
     excs = pipeline.reply_exceptions(o)
     trace = o["trace"]
@@ -685,12 +795,15 @@ def _check(case, obs):
             if not any(e.get("type") == typ and e.get("message") == want for e in excs):
                 raise Violation("refusal-missing", f"{what}: expected a {typ} with message {want!r}, got {o['reply']!r}"[:500])
         else:
-            want = refusal_text(cat, i, "both")
+            # (a refusal that is a template is uttered rendered: "Sorry $vf_who, ..." -> "Sorry Ann, ...")
+            want = _tpl_text(cfg, refusal_text(cat, i, "both"), rendered=True)
             if (text.strip() != want) if exact else (want not in text):
                 raise Violation("refusal-missing", f"{what}: rail {cat}{i} rejected, reply must be its refusal {want!r}, got {o['reply']!r}"[:500])
 
     if mi["blocked"] is not None:
         labels.append("input-blocked")
+        if cfg.get("tpl") and not cfg["exc"]:
+            labels.append("templated-refusal-of-an-input-rail" + ("-with-output-selected" if O else ""))
         if gen:
             raise Violation("llm-call-after-block", f"{what}: input was blocked but the LLM was called for {[c['task'] for c in gen]}")
         if [e for e in out_entries if fakes.lineage(e["text"])]:
@@ -719,6 +832,8 @@ def _check(case, obs):
             nt_event = nt_event or any(c["verdict"] != "accept" for c in mo["calls"][: mo["need"]])
             if mo["blocked"] is not None:
                 labels.append("bot-message-blocked")
+                if cfg.get("tpl") and not cfg["exc"]:
+                    labels.append("templated-refusal-of-an-output-rail")
                 expect_refusal("out", mo["blocked"])
             else:
                 last_rw = max([i for i, c in enumerate(mo["calls"]) if c["verdict"] == "rewrite"], default=None)
@@ -733,6 +848,8 @@ def _check(case, obs):
         generated = pipeline.generated_texts(o)
         in_reply = fakes.lineage(text)
         labels.append("dialog-llm-message" if generated else "dialog-predefined-message")
+        if cfg.get("tpl") and cfg["tpl"][1] == "context" and (PREDEF["greet"] in text or PREDEF["help"] in text):
+            labels.append("templated-predefined-dialog-message" + ("-with-output-selected" if O else ""))
         for ln in in_reply:
             if ln not in generated:
                 raise Violation("foreign-llm-text", f"{what}: reply carries text {ln} that the LLM did not generate in this turn: {text[:100]!r}")
@@ -786,7 +903,7 @@ def _check(case, obs):
     empty_selected = (I and not cfg["in"]) or (O and not cfg["out"])
     nt = len(sel) < 4 and bool(nt_event or twice or empty_selected)
     # (the evidence keeps the 60 most frequent labels only: the shares of the options hand-over dimension are also kept as counters)
-    counters = {lab: 1 for lab in set(labels) if lab.startswith(("options-", "after-a-call-with"))}
+    counters = {lab: 1 for lab in set(labels) if lab.startswith(("options-", "after-a-call-with", "predefined-messages=", "templated-", "bot-message-supplied-although"))}
     return ok(nt=nt, labels=sorted(set(labels)), counters=counters, view={"rails": spec["options"]["rails"], "in": spec["in"], "out": spec["out"], "user": spec["user"], "bot": spec.get("bot"), "reply": o["reply"], "rail_calls": [e["rail"] for e in trace], "llm_calls": len(o["llm"]), "log": [(r["type"], r["name"], r["stop"]) for r in log]})
 
 
@@ -819,6 +936,17 @@ def _caller_options(case, p):
     return kwargs
 
 
+def _with_context_message(build, ctx):
+    """The caller plants its context variables with a message of role `context` in front of the messages of every call."""
+
+    def kwargs(session, t):
+        kw, user = build(session, t)
+        kw["messages"] = [json.loads(json.dumps(ctx))] + kw["messages"]
+        return kw, user
+
+    return kwargs
+
+
 def _run_conversation(case, fresh):
     """vf.pipeline.run_conversation for the call schedules the shared runner does not have: api "task" (one coroutine
     awaits every call of the case in turn - one asyncio task, one contextvars context, as an application's own coroutine or
@@ -830,6 +958,9 @@ def _run_conversation(case, fresh):
         s = p.new_session(case)
         if (case.get("options_as") or "dict") != "dict":
             p._kwargs = _caller_options(case, p)  # (instance attribute in front of the method, removed below)
+        ctx = _tpl_context(case["config"])
+        if ctx is not None:
+            p._kwargs = _with_context_message(p._kwargs, ctx)
 
         def begin(t):
             if case["turns"][t].get("new_conversation"):
@@ -872,6 +1003,7 @@ def _run_checked(case):
 
 
 def prop(case):
-    if case.get("api") == "task" or any(tn.get("new_conversation") for tn in case["turns"]) or (case.get("options_as") or "dict") != "dict":
+    if (case.get("api") == "task" or any(tn.get("new_conversation") for tn in case["turns"]) or (case.get("options_as") or "dict") != "dict"
+            or _tpl_context(case["config"]) is not None):
         return _run_checked(case)
     return pipeline.run_checked(case, _check)
